@@ -53,7 +53,8 @@ RULE = (
     "string or raw PostScript, usecmap in an Encoding stream, Registry, Ordering, BaseFont/FontName, image /Name entry, "
     "inline /CS name, form XObject name, image XObject name, image name inside a form) carries a hostile string: absolute "
     "paths, ../ chains (#2F-escaped in names), .pickle.gz suffixes, NULs (also NULs that only produce '..' once stripped), "
-    "300-byte names, names of existing files, '.', '..', empty, doubled separators, prefix-confusion siblings (<dir>_evil), "
+    "300-byte names, names of existing files (also symbolic links, dangling or not), '.', '..', empty, doubled separators, "
+    "'....//' (a '../' left behind by a one-pass filter), prefix-confusion siblings (<dir>_evil), "
     "Windows separators, ~ and $VAR, non-UTF-8 bytes; enumerated over output types text/xml/html and output-directory "
     "modes (absolute, relative, odd spelling, symlinked, not yet existing, none), CMAP_PATH set/unset; plus seeded random "
     "strings built from the same fragments and random slot/image-kind/xref combinations; control documents carry no hostile "
@@ -133,6 +134,7 @@ READ_STRINGS: List[Tuple[str, bytes]] = [
     ("rel_env", b"../decoys/decoy"),
     ("rel_env_dot", b"./../decoys/decoy"),
     ("rel_env_dslash", b".//..//decoys//decoy"),
+    ("nested_dotdot", b"....//decoys/decoy"),          # "../decoys/decoy" once a filter has removed "../"
     ("rel_env_sub", b"to-unicode-vf/../../decoys/decoy"),
     ("rel_env_missing_component", b"nonexistent/../../decoys/decoy"),
     ("nul_in_chain", b"..\x00/decoys/decoy"),
@@ -174,6 +176,8 @@ WRITE_STRINGS: List[Tuple[str, bytes]] = (
         ("up_via_sub", b"sub/../../escaped"),
         ("up_via_missing", b"nosub/../../escaped"),
         ("up_dslash", b"..//..//escaped"),
+        ("nested_dotdot", b"....//....//escaped"),      # "../../escaped" once a filter has removed "../"
+        ("nested_dotdot_abs", b"/@ABS@/....//escaped"),
         ("abs", b"@ABS@/escaped"),
         ("abs_nodir", b"@ROOT@/nodir/escaped"),
         ("abs_dslash", b"/@ABS@/escaped"),
@@ -224,16 +228,17 @@ BENIGN_CSI = [(b"Adobe", b"Japan1"), (b"VF", b"Test"), (b"Adobe", b"Identity"), 
 
 def minimums(tier: str) -> Dict[str, int]:
     q = tier == "quick"
-    m = {
-        "evaluations": 3000 if q else 40000,
-        "distinct": 2500 if q else 30000,
-        "legit_lib_cmap_opens": 1500 if q else 20000,
-        "legit_env_cmap_opens": 150 if q else 2000,
-        "images_created": 1500 if q else 20000,
-        "mkdir_outdir_observed": 20 if q else 200,
-        "hook_selftests_passed": 16,
-        "naive_read_hits": 300 if q else 3000,
-        "naive_write_escapes": 150 if q else 1500,
+    return {
+        "evaluations": 4400 if q else 125000,
+        "distinct": 3800 if q else 100000,
+        "legit_lib_cmap_opens": 2500 if q else 70000,
+        "legit_env_cmap_opens": 500 if q else 15000,
+        "images_created": 4000 if q else 100000,
+        "mkdir_outdir_observed": 400 if q else 15000,
+        "hook_selftests_passed": 32 if q else 80,
+        "naive_read_hits": 200 if q else 3500,
+        "naive_write_escapes": 200 if q else 2500,
+        "hostile_image_name_runs_with_file_in_outdir": 400 if q else 8000,
         "seen:slots": len(ALL_SLOTS) + 1,
         "seen:otypes": 3,
         "seen:outmodes": len(OUTMODES),
@@ -241,7 +246,6 @@ def minimums(tier: str) -> Dict[str, int]:
         "seen:read_tags": len(READ_STRINGS) + len(READ_CONTROLS),
         "seen:write_tags": len(WRITE_STRINGS) + len(WRITE_CONTROLS),
     }
-    return m
 
 
 # --------------------------------------------------------------------------
@@ -253,7 +257,7 @@ def shards(tier: str, seed: int) -> List[Dict[str, Any]]:
     for i in range(nenum):
         out.append({"kind": "enum", "part": i, "of": nenum})
     nrand = 16 if tier == "quick" else 64
-    per = 150 if tier == "quick" else 1200
+    per = 150 if tier == "quick" else 2000
     for k in range(nrand):
         out.append({"kind": "rand", "sub": k, "n": per})
     return out
@@ -575,12 +579,15 @@ def build_doc(case: Dict[str, Any], h: bytes) -> Tuple[bytes, Dict[str, Any]]:
         nm1 = h
     xobjects[Name(nm1)] = doc.add(_image(kinds[0], doc, dictname))
     content.append(paint(nm1, 72))
+    if slot == "xobject_image" and v % 2:
+        content.append(paint(nm1, 300))     # the second export of one name goes through the "name is taken" branch
+        facts["twice"] = True
     if slot in ("form_name", "form_inner_image") or v % 4 == 1:
         inner = h if slot == "form_inner_image" else nm2
         fname = h if slot == "form_name" else b"Fm1"
         form = Stream({"Type": N("XObject"), "Subtype": N("Form"), "BBox": [0, 0, 1, 1],
                        "Resources": {"XObject": {Name(inner): doc.add(_image(kinds[1], doc))}}},
-                      ser_name(inner) + b" Do\n")
+                      (ser_name(inner) + b" Do\n") * (2 if slot == "form_inner_image" and v % 2 else 1))
         facts["painted"] += 1
         if Name(fname) in xobjects:      # the form takes the name: the page-level image is no longer reachable
             facts["painted"] -= 1
